@@ -60,6 +60,16 @@ impl PartialEq<u128> for SymU128 {
         sym::decide(sym::eq(self.0, sym::ku(*o)))
     }
 }
+impl PartialEq<SymU128> for u128 {
+    fn eq(&self, o: &SymU128) -> bool {
+        sym::decide(sym::eq(sym::ku(*self), o.0))
+    }
+}
+impl PartialEq<SymU64> for u64 {
+    fn eq(&self, o: &SymU64) -> bool {
+        sym::decide(sym::eq(sym::ku(*self as u128), o.0))
+    }
+}
 impl PartialEq for SymU128 {
     fn eq(&self, o: &SymU128) -> bool {
         sym::decide(sym::eq(self.0, o.0))
